@@ -350,7 +350,7 @@ func TestVerifC10(t *testing.T) {
 						return out
 					}
 					return c10Wire(recv)
-}
+				}
 				pan, msg := vkit.Guard(func() {
 					if strings.HasSuffix(form, ">corrupt") {
 						recv = received()
